@@ -143,7 +143,7 @@ def check(run: Run) -> None:
 
     # ---------------- R6: .. and that copy shares nothing with the stream's AST where the cleaner changes its shape
     run.rule("C11.R6", "the copy handed to the executor is the cleaner's own: what replaces a removed wrapper is taken from the copy, not from the stream's AST (C15.R3 re-evaluated)")
-    run_stage(run, "c15", only={"C15.R3"})
+    run_stage(run, "c15", only={"C15.R3", "C15.R5"})
 
     # ---------------- R7: a lambda handed in as an ast object
     run.rule("C11.R7", "a lambda supplied as an ast is copied before the pipeline patches it in place (its nodes end up in the new stream's query; the same object may already be part of another stream)")
